@@ -73,9 +73,11 @@ class Fn:
             raise TranslateError(f'{name}: first parameter must be self')
         self.defaults = {}
         for p, d in zip(reversed(self.params), reversed(a.defaults)):
-            if not (isinstance(d, ast.Constant) and d.value is None):
-                err(d, f'{name}: only None is supported as a parameter default')
-            self.defaults[p] = 'PNone'
+            if isinstance(d, ast.Constant) and d.value is None:
+                self.defaults[p] = 'PNone'
+            elif not (isinstance(d, ast.Constant) and isinstance(d.value, (int, float)) and not isinstance(d.value, bool)):
+                err(d, f'{name}: parameter default not supported')
+            # a numeric default only matters to callers that omit the argument; none of the translated code does
         self.short = name.lstrip('_')
         self.locals = list(self.params)
         self.loopvars = set()
@@ -186,7 +188,7 @@ class Fn:
             # <expr>.f.<name>  /  <expr>.<name>
             if isinstance(e.value, ast.Attribute) and e.value.attr == 'f':
                 return f'(py_field {self.ex(e.value.value)} {coq_str(e.attr)})'
-            if e.attr in ('CID', 'cls', 'id'):
+            if e.attr in ('CID', 'cls', 'id', 'frames_rx'):
                 return f'(py_attr {self.ex(e.value)} {coq_str(e.attr)})'
             err(e, f'attribute .{e.attr} not supported')
         if isinstance(e, ast.BinOp):
@@ -210,6 +212,12 @@ class Fn:
                 err(e, 'keyword arguments not supported')
             if f == 'time.time' and not e.args:
                 return '(p_time w)'
+            if f == 'UbxParser' and len(e.args) == 1 and getattr(self.mod, 'UbxParser', None) is not None \
+                    and self.mod.UbxParser.__module__ == 'ubxlib.parser_ubx':
+                return f'(py_new_ubx_parser {self.ex(e.args[0])})'
+            if f == 'NmeaParser' and not e.args and getattr(self.mod, 'NmeaParser', None) is not None \
+                    and self.mod.NmeaParser.__module__ == 'ubxlib.parser_nmea':
+                return 'py_new_nmea_parser'
             if f == 'UbxCID' and len(e.args) == 2 and getattr(self.mod, 'UbxCID', None) is not None:
                 return f'(py_mk_cid {self.ex(e.args[0])} {self.ex(e.args[1])})'
             err(e, f'call {f} is not a pure expression of the subset')
@@ -339,6 +347,11 @@ class Fn:
                     if v not in self.defined:
                         err(st, f'local {v} may be read before it is assigned')
                     return f'(s_update {self.fld(v)} {self.setter(v)} py_pack)'
+                if f and f.endswith('.process') and len(c.args) == 1 and f.split('.')[0] in self.locals and len(f.split('.')) == 2:
+                    v = f.split('.')[0]
+                    if v not in self.defined:
+                        err(st, f'local {v} may be read before it is assigned')
+                    return f'(s_update_arg {self.fld(v)} {self.setter(v)} {self.lam(self.ex(c.args[0]))} py_obj_process)'
                 call = self.call(c)
                 if call is not None:
                     return f'(s_call {self.lam(call)})'
@@ -490,6 +503,30 @@ def emit_req_v(path):
         L.append(f.emit())
         L.append('')
     L.append('End G.')
+    text = '\n'.join(L) + '\n'
+    with open(path, 'w') as fh:
+        fh.write(text)
+    return text
+
+
+def emit_scan_v(path):
+    """GnssUBlox.scan() of ubxlib/server_tty.py (bit-rate scan with two private parsers) -> gen/ScanKernels.v"""
+    import sys
+    mod = sys.modules.get('ubxlib.server_tty')
+    if mod is None:
+        import ubxlib.server_tty as mod
+    cls = mod.GnssUBlox
+    f = Fn(mod, cls, 'scan', {}, (0, 0))
+    if f.params != ['interval_in_s']:
+        raise TranslateError(f'scan: parameters {f.params}')
+    L = ['(* GENERATED on every run by py/vlib/translate_req.py from ubxlib/server_tty.py in /repo. Do not edit. *)',
+         'From Coq Require Import String.',
+         'From Ubx Require Import Fields Base Checksum Frame ParserUbx ParserNmea CfgKeys Request PySem.',
+         'Open Scope N_scope.', '']
+    L += f.record()
+    L += ['', 'Section G.', 'Context {E : Type} (B : backend E) (sk : list N).', 'Notation fres := (@fres E).', '']
+    L.append(f.emit())
+    L += ['', 'End G.']
     text = '\n'.join(L) + '\n'
     with open(path, 'w') as fh:
         fh.write(text)
